@@ -3,6 +3,7 @@ package routing
 import (
 	"fmt"
 	"strings"
+	"sync"
 
 	"verifharness/internal/drv"
 	"verifharness/internal/report"
@@ -338,4 +339,56 @@ func searchFalsifying(run *report.Run, p PropSpec, opts Opts, cfg Config, req Re
 		}
 	}
 	return false
+}
+
+// CheckHammer: every request of a table is first dispatched alone, then all of them are dispatched
+// again and again from eight goroutines at once (no rendezvous: plain parallel traffic, what a server
+// does); every outcome — which function ran, the parameter values, status, Allow set — must be the
+// one the request gets alone. It is the search for shared working storage on the routing path
+// (buffers, memos, pools) that sequential traffic can never show.
+func CheckHammer(run *report.Run, propID string, o Opts, seed uint64, nCfg, perCfg, rounds int) {
+	base := rng.New(seed)
+	bad := 0
+	for ci := 0; ci < nCfg; ci++ {
+		r := base.Fork(uint64(ci))
+		cfg := GenConfig(r, o)
+		cont, err := Build(cfg)
+		if err != nil {
+			continue
+		}
+		reqs := make([]Req, perCfg)
+		alone := make([]string, perCfg)
+		for i := range reqs {
+			reqs[i] = GenReq(r, o, cfg)
+			alone[i] = Dispatch(cont, reqs[i]).Sx().String()
+		}
+		var mu sync.Mutex
+		var wg sync.WaitGroup
+		for g := 0; g < 8; g++ {
+			wg.Add(1)
+			go func(g int) {
+				defer wg.Done()
+				for k := 0; k < rounds; k++ {
+					for j := range reqs {
+						i := (j*7 + g*3 + k) % len(reqs)
+						got := Dispatch(cont, reqs[i]).Sx().String()
+						if got != alone[i] {
+							mu.Lock()
+							if bad < 3 {
+								bad++
+								run.AddViolation(report.Violation{Kind: "counterexample",
+									What:  propID + ": a request dispatched while seven other goroutines dispatch requests on the same container gets another outcome than alone",
+									Human: Human(&cfg, reqs[i]), Real: got, Model: alone[i]})
+							}
+							mu.Unlock()
+						}
+					}
+				}
+			}(g)
+		}
+		wg.Wait()
+		run.Evaluations += 8 * rounds * len(reqs)
+		run.TracesValidated += 8 * rounds * len(reqs)
+		run.Count("hammer:" + o.Router + ":tables")
+	}
 }
